@@ -125,6 +125,11 @@ pub fn reset_world() {
   W.with(|x| *x.borrow_mut() = World::default());
 }
 
+/// did any probe receive a notification on this path (or any harness counter move)?
+pub fn any_delivery() -> bool {
+  W.with(|x| x.try_borrow().map_or(false, |w| w.probes.iter().any(|p| !p.log.is_empty()) || w.counters.iter().any(|c| *c != 0)))
+}
+
 pub fn tick() -> u64 {
   w(|w| {
     w.tick += 1;
